@@ -13,6 +13,7 @@ CONSTANTS
   RecheckRef = TRUE
   AtomicFin = TRUE
   RecheckClosed = TRUE
+  ClearDelf = TRUE
   CloseExcl = FALSE
 SYMMETRY Symm
 VIEW View
